@@ -14,6 +14,9 @@
 #ifndef W_BO
 #define W_BO w_bo
 #endif
+#define W_CAT2(a, b) a##b
+#define W_CAT(a, b) W_CAT2(a, b)
+#define W_BOC W_CAT(W_BO, c)          /* w_boc, w_bo2c, ...: the same helpers called with literal arguments */
 
 /* byte-order helpers: returns the helper's result as a register value and
  * stores the result object's memory image (what a memcpy of the object sees)
@@ -43,3 +46,5 @@ uint64_t W_BO(uint64_t helper, uint64_t x, uint8_t* image)
     }
     return 0;
 }
+
+#include "wrap_bo_const.inc"
